@@ -34,7 +34,7 @@ BUILT = {
         "C", "5/C07",
         "deterministic simulation: real ExecutionManager::run on a paused, seeded current-thread tokio runtime (discrete-event virtual time) behind a scripted ExecutionClient (delays around the timeout, silence, errors), history check with exact virtual timestamps",
         "Seeded search over request batches (1-64 outstanding, bursts), per-request client behaviour (Ok / fully filled / rejected / connectivity error after any delay below, at or above the timeout, or never), timeouts from 1 ms to 60 s, select! tie-breaks and a response receiver that goes away. The recorded response history must contain exactly one event per accepted request, at the exact virtual instant, of the right kind and attribution, the client's own answer iff it beat the timeout.",
-        "Trusted: the scripted client, the virtual-time driver/collector and tokio's paused-clock runtime (timer wheel, FIFO run queue, seeded select!). A response exactly at the timeout instant is accepted either way (so a change that only flips that tie, seeded change C07_4, is not reported). Multi-threaded runtime scheduling and real scheduler delays are not explored.",
+        "Trusted: the scripted client, the virtual-time driver/collector and tokio's paused-clock runtime (timer wheel, FIFO run queue, seeded select!). A response exactly at the timeout instant is accepted either way; a clock-leap fault (the clock jumps past the response instant and the deadline in one step) distinguishes 'response first' from 'deadline first' when the delay is below the timeout. Multi-threaded runtime scheduling is not explored.",
     ),
     "C04": (
         "C", "5/C04",
@@ -46,7 +46,7 @@ BUILT = {
         "F", "5/C10",
         "deterministic simulation: one seeded engine history run three ways (step-by-step reference, sync_run_with_audit with the simulator as Iterator feed, async_run_with_audit on a paused tokio runtime with the simulator as Stream feed) + real StateReplicaManager behind a fault-injecting audit network (loss/dup/swap/replay, dropped audit receiver)",
         "Seeded search over engine event histories (market/account items, fills, reconnect notices, trading toggles, the four commands, scripted strategy output, execution-link faults; ended by shutdown, feed end or a fatal error) through the sync and async auditing runners. Checks one tick per event carrying that event with consecutive sequences after the snapshot and a terminal last tick (A1), replica == engine after every tick with in-flight markers set aside (A2), and skip / reject behaviour under audit tick loss, duplication, swap and replay (A3).",
-        "Trusted: the reference trace is produced by the real process_with_audit (its tick structure is checked independently against the fed events); order comparison normalisation (drop open-in-flight, cancel-in-flight(Some o) -> open(o)). Workload restrictions: unique client order ids, strategies only issue requests in callbacks, default instrument/global data. EngineFeedMode::Iterator's spawn_blocking thread is not used (the sync runner is called directly).",
+        "Trusted: the reference trace is produced by the real process_with_audit (its tick structure is checked independently against the fed events); order comparison normalisation (drop open-in-flight, cancel-in-flight(Some o) -> open(o)). Workload restrictions: unique client order ids, strategies only issue requests in callbacks, default instrument/global data. A fourth execution goes through the real SystemBuild::init (stream mode, audit enabled) with events sent through System::feed_tx. EngineFeedMode::Iterator's spawn_blocking thread is not used (the sync runner is called directly).",
     ),
     "C03": (
         "B", "5/C03",
@@ -58,7 +58,7 @@ BUILT = {
         "B", "5/C14",
         "deterministic simulation: seeded per-exchange market/account link drops and heals (partition / heal) fed through the real Engine; two-booleans-per-exchange health model + on-disconnect call log after every event",
         "Seeded search over sequences of market items, account items and market/account reconnect notices across 1-4 exchanges from the all-reconnecting start, processed by the real engine; after each event every per-exchange flag, the global flag, the on-disconnect strategy call log and the audit's disconnect outputs are compared with a health model written from the statement.",
-        "Trusted: the 2-boolean model and the counting strategy stub. The healing event is drawn from every account event kind. Quick and thorough use the synchronous engine feed; the reconnect combinators that produce the notices in a live system are exercised by C12's simulator (the end-to-end composition sketched in DESIGN.md was not built).",
+        "Trusted: the 2-boolean model and the counting strategy stub. The healing event is drawn from every account event kind. A second sub-batch produces every notice with the real reconnect combinators (one scripted reconnecting stream per exchange link, forwarded into one engine feed as SystemBuild::init does); the whole-system runs drop real account connections of a running ExecutionManager.",
     ),
     "C15": (
         "B", "5/C15",
@@ -96,6 +96,17 @@ NOT_APPLICABLE = {
     "C18": "pure fold over a timed value sequence",
 }
 
+# properties that additionally get whole-system runs (Sim H): every N-th run of the batch
+WHOLE = {"C01": 40, "C03": 10, "C07": 20, "C10": 8, "C14": 20}
+WHOLE_TECH = " + whole-system runs (every {n}th run): real ExecutionBuilder::add_live -> ExecutionManager::init/run -> SystemBuild::init (stream feed, audit on) -> Engine with LiveClock on the simulated clock, driven only from outside (market stream, scripted exchange clients with delays / silence / errors / lagging unsolicited reports / dropped account connections, operator commands, strategy batches, an exchange without execution link, clock leaps, spurious channel wake-ups), judged after a quiet period from the audit stream, the requests each client received and the engine returned by System::shutdown"
+WHOLE_TEXT = {
+    "C01": " Whole-system runs fold the same lifecycle model over the audited end-to-end history: it bounds each order's exchange-reported data after every audit record (on a real replica) and its exact state, in-flight markers included, in the engine handed back.",
+    "C03": " Whole-system runs: per exchange the requests the audit stream reports as sent must equal, in order, what that exchange's client received through the real execution manager; requests for an exchange without a link must end the run on a fatal record and reach nobody; refused requests reach nobody; no strategy output while trading is disabled.",
+    "C07": " Whole-system runs: per (order, kind) the engine must process exactly as many answers as the exchange client received requests, the client's answer iff it beat the timeout, and once faults stop (2 x (timeout + slowest client) + 1 s of virtual time) no order of the returned engine may still be in flight.",
+    "C10": " Whole-system runs: the audit stream handed out by SystemBuild::init must have consecutive sequences, one record per item pushed into the running system, exactly the last record terminal, and a real replica following it must end equal to the engine returned by System::shutdown.",
+    "C14": " Whole-system runs: health per link and globally after every audit record (on a replica) and on the returned engine, one on-disconnect call per notice, and exactly one account notice per account connection the exchange client dropped.",
+}
+
 PENDING = {k: "not claimed yet: its simulator (DESIGN.md section 5) is still under construction; will be claimed once committed and clean on the unchanged tree" for k in ["C03","C04","C06","C07","C08","C10","C12","C14","C15","C19","C20"]}
 
 
@@ -104,13 +115,19 @@ def main():
     checks = []
     for pid in sorted(BUILT):
         sim, ref, technique, text, note = BUILT[pid]
+        engine = f"simcheck/sim_{sim.lower()}"
+        if pid in WHOLE:
+            technique += WHOLE_TECH.format(n=WHOLE[pid])
+            text += WHOLE_TEXT[pid]
+            note += " Whole-system runs: single-threaded paused runtime (task interleaving decided by the seeded runtime and the paused clock); client order ids re-used while tracked are set aside in the replica comparison; see DESIGN.md section 5, Sim H."
+            engine += " + simcheck/sim_h"
         checks.append({
             "property_id": pid,
             "quick_cmd": f"./check {pid} quick",
             "thorough_cmd": f"./check {pid} thorough",
             "evidence_file": f"/verif/evidence/{pid}.json",
             "replay_cmd_template": f"./check {pid} --replay {{path}}",
-            "engine": f"simcheck/sim_{sim.lower()}",
+            "engine": engine,
             "level_claimed": {"category": "exploration", "text": text, "design_ref": f"DESIGN.md section {ref}"},
             "level_note": note,
             "technique": technique,
@@ -119,6 +136,8 @@ def main():
     engines = {}
     for pid, (sim, *_rest) in BUILT.items():
         engines.setdefault(sim, []).append(pid)
+        if pid in WHOLE:
+            engines.setdefault("H", []).append(pid)
     manifest = {
         "version": 1,
         "setup_cmd": "./check build",
